@@ -101,7 +101,7 @@ def term_stamp(cx):
         cx.check(ok, "stamp:" + v, "a %s leaves send() only after `m.term := self.term`" % v, push)
 
 
-@obligation("MSG.heartbeat.commit_cap", ["C01", "C04", "C13"], floor=1, kind="value shape",
+@obligation("MSG.heartbeat.commit_cap", ["C01", "C04", "C05", "C13"], floor=1, kind="value shape",
             why="a follower whose tail diverges beyond `matched` would commit it on a heartbeat")
 def heartbeat_cap(cx):
     ts = tmpls(cx, {"MsgHeartbeat"})
